@@ -15,19 +15,120 @@ import (
 
 func init() { suites["C20"] = runC20 }
 
-func rowFromBits(bs []bool) *gozxing.BitArray {
-	row := gozxing.NewBitArray(len(bs))
-	for i, b := range bs {
-		if b {
-			row.Set(i)
+func rowFromBits(bs []bool) *gozxing.BitArray { return rowFromBitsVia(bs, 0, nil) }
+
+// c20Paths: the ways a caller can arrive at a BitArray holding the same pixels.  The property speaks of "a pixel
+// row": the run-length primitives must not depend on how the row was built (allocation size of the word slice,
+// spare capacity left by appends, words touched by Reverse / Xor ...), only on its pixels.
+const c20Paths = 8
+
+func rowFromBitsVia(bs []bool, path int, r *Rng) *gozxing.BitArray {
+	n := len(bs)
+	set := func(row *gozxing.BitArray, off int, part []bool) {
+		for i, b := range part {
+			if b {
+				row.Set(off + i)
+			}
 		}
 	}
-	return row
+	switch path {
+	default: // exact allocation + Set
+		row := gozxing.NewBitArray(n)
+		set(row, 0, bs)
+		return row
+	case 1: // grown one pixel at a time from the empty array
+		row := gozxing.NewEmptyBitArray()
+		for _, b := range bs {
+			row.AppendBit(b)
+		}
+		return row
+	case 2: // grown in chunks of 1..32 bits
+		row := gozxing.NewEmptyBitArray()
+		for i := 0; i < n; {
+			k := r.Range(1, 32)
+			if i+k > n {
+				k = n - i
+			}
+			v := 0
+			for j := 0; j < k; j++ {
+				v <<= 1
+				if bs[i+j] {
+					v |= 1
+				}
+			}
+			row.AppendBits(v, k)
+			i += k
+		}
+		return row
+	case 3: // concatenation of two arrays
+		cut := 0
+		if n > 0 {
+			cut = r.Intn(n + 1)
+		}
+		row := rowFromBitsVia(bs[:cut], r.Intn(3), r)
+		row.AppendBitArray(rowFromBitsVia(bs[cut:], 0, r))
+		return row
+	case 4: // built mirrored, then Reverse()
+		rev := make([]bool, n)
+		for i, b := range bs {
+			rev[n-1-i] = b
+		}
+		row := gozxing.NewBitArray(n)
+		set(row, 0, rev)
+		row.Reverse()
+		return row
+	case 5: // complement, then Xor with all-ones of the same size
+		row := gozxing.NewBitArray(n)
+		ones := gozxing.NewBitArray(n)
+		for i, b := range bs {
+			if !b {
+				row.Set(i)
+			}
+			ones.Set(i)
+		}
+		if e := row.Xor(ones); e != nil {
+			return rowFromBitsVia(bs, 0, r)
+		}
+		return row
+	case 6: // SetRange over the black runs
+		row := gozxing.NewBitArray(n)
+		for i := 0; i < n; {
+			j := i
+			for j < n && bs[j] == bs[i] {
+				j++
+			}
+			if bs[i] {
+				row.SetRange(i, j)
+			}
+			i = j
+		}
+		return row
+	case 7: // appended to, then overwritten: Clear + Set on an array that has been grown by appends
+		row := gozxing.NewEmptyBitArray()
+		for i := 0; i < n; i++ {
+			row.AppendBit(r.Bool())
+		}
+		row.Clear()
+		set(row, 0, bs)
+		return row
+	}
 }
 
 func genRow(r *Rng, n int) []bool {
 	bs := make([]bool, n)
-	mode := r.Intn(4)
+	mode := r.Intn(5)
+	if mode == 4 { // long runs (quiet zones, wide bars): runs that cover whole 32-bit words
+		cur := r.Bool()
+		for i := 0; i < n; {
+			l := r.Range(1, 90)
+			for j := 0; j < l && i < n; j++ {
+				bs[i] = cur
+				i++
+			}
+			cur = !cur
+		}
+		return bs
+	}
 	switch mode {
 	case 0: // random pixels
 		for i := range bs {
@@ -174,7 +275,9 @@ func runC20(c *Ctx) {
 			n = r.Intn(301)
 		}
 		bs := genRow(r, n)
-		row := rowFromBits(bs)
+		path := it % c20Paths
+		row := rowFromBitsVia(bs, path, r)
+		c.Note(fmt.Sprintf("rp:row-built-via-path-%d", path))
 		bstr := bitsStr(bs)
 		if bstr == "" {
 			bstr = "-"
